@@ -734,6 +734,13 @@ func (x *Exec) globalValue(e *Env, o *types.Var) Value {
 	}
 	p := x.U.Pkgs[o.Pkg().Path()]
 	if p == nil || len(p.Syntax) == 0 {
+		// a variable of a package that is not analysed (standard library): an interface value is some
+		// fixed unknown value
+		if s := e.R().sortOf(o.Type()); s != nil && s.K == KUn {
+			v := Scalar{Var("global."+o.Pkg().Name()+"."+o.Name(), s), o.Type()}
+			x.globals[o] = v
+			return v
+		}
 		unsupported("package-level variable %s.%s: package syntax not loaded", o.Pkg().Path(), o.Name())
 	}
 	if !immutableGlobal(p.Syntax, p.TypesInfo, o) {
